@@ -7,6 +7,7 @@
   the code states": atol + rtol·max(1, |value|) with atol = tol or 1e-6, rtol = 1e-6.
 -/
 import Optyx.Lemmas.Solve
+import Optyx.Drive.Solve   -- one build of this module also builds the driver the check runs
 
 namespace Optyx.Props.C06
 open Optyx Optyx.Py.Solve
